@@ -415,7 +415,8 @@ def uniform(data: ttb.tensor, samples: int) -> sample_type:
         ).astype(int)
         - 1
     )
-    vals = data[subs]
+    # One value per sample as a vector (a sparse tensor hands back a column)
+    vals = np.asarray(data[subs]).reshape((samples,))
     wgts = (np.prod(data.shape) / samples) * np.ones((samples,))
     return subs, vals, wgts
 
